@@ -307,6 +307,21 @@ def r5(run, ctx, f, cfg, stop, kill):
                       'without signalling the remaining children and the worker: the final '
                       'SIGKILL is lost and the stop path waits for a worker that never dies',
                       construct='child failure skips the worker')
+    for cn in childs:
+        hdr = [h for h in c2.nodes if h.kind == 'iter' and cn.id in c2.branch_nodes(h, 'true')]
+        after_exc = [c2.nodes[i] for i, lab in c2.succ[cn.id] if lab == 'exc'
+                     and c2.nodes[i].kind == 'except']
+        for hn in after_exc:
+            r_ = c2.reach(hn, avoid=hdr, labels_excluded=('exc', 'raise', 'reraise'),
+                          include_src=True)
+            run.check('R5', bool(hdr) and c2.exit.id not in r_ and
+                      not any(p_.id in r_ for p_ in parent),
+                      'a vanished child does not keep the signal from the children after it',
+                      g, cn.ast,
+                      'when one child is already gone (NoSuchProcess) the loop over the '
+                      'children ends: the children not yet visited never get the stop signal, '
+                      'nor the final SIGKILL - they outlive the worker as orphans',
+                      construct='child failure ends the fan-out')
     for n in childs:
         hdr = [h for h in c2.nodes if h.kind == 'iter' and n.id in c2.branch_nodes(h, 'true')]
         run.check('R5', bool(hdr) and 'children' in norm_text(hdr[0].ast.iter),
